@@ -125,11 +125,13 @@ def mint(c, raw_stream: bytes, plaintext_len: int):
     return tok, jk
 
 
-def decrypt(tok, jk):
+def decrypt(tok, jk, lenient: bool = False):
     from joserfc import jwe
+    # lenient: the caller's registry accepts any single recipient (verify_all_recipients=False); the bound and its error are the same
+    kw = {"registry": jwe.JWERegistry(algorithms=jweplan.ALL_NAMES, verify_all_recipients=False)} if lenient else {"algorithms": jweplan.ALL_NAMES}
     if isinstance(tok, str):
-        return jwe.decrypt_compact(tok, jk, algorithms=jweplan.ALL_NAMES).plaintext
-    return jwe.decrypt_json(tok, jk, algorithms=jweplan.ALL_NAMES).plaintext
+        return jwe.decrypt_compact(tok, jk, **kw).plaintext
+    return jwe.decrypt_json(tok, jk, **kw).plaintext
 
 
 def judge(c, tok, jk, n, expected_plain, f, tag):
@@ -140,7 +142,7 @@ def judge(c, tok, jk, n, expected_plain, f, tag):
     tracemalloc.reset_peak()
     try:
         try:
-            got = decrypt(tok, jk)
+            got = decrypt(tok, jk, lenient=c.get("seed", 0) % 3 == 1)
             err = None
         except Exception as e:
             got, err = None, e
